@@ -86,7 +86,7 @@ func vpExtraValue() any {
 	case 4:
 		return []any{vpStrUpTo(1, "x-z"), 7}
 	}
-	return vpMapOf("n", vpStrUpTo(1, "x-z"), "m", []any{1.5})
+	return vpMapOf("n", vpStrUpTo(1, "x-z"), "m", []any{1.5}, "\x07bell \x1b[31m\x7f", true) // keys are arbitrary strings
 }
 
 // the JSON form of a generic value (ordered maps as objects)
